@@ -14,22 +14,34 @@ import Rl4co.Props.C01.Op
 namespace Rl4co.Op
 open Rl4co.Spec.Op Rl4co.Prize
 
+/-- the single-column test is `length = 1` (extracted operator `==` and constant `1`) -/
+theorem rewardSpecial_iff (as : List Nat) : rewardSpecial as = decide (as.length = 1) := by
+  simp [rewardSpecial, Params.opRewardSpecialCmp, Params.opRewardSpecialWidth, Cmp.evalNat]
+
+theorem reward_eq (i : Inst) (as : List Nat) :
+    reward i as = if as.length = 1 then 0 else gatherSum i.prize as := by
+  simp [reward, rewardSpecial_iff]
+
 /-- general form: for every action list with entries in range and no repeated customer, that is not a
 single column, the reward is the prize of the visited set -/
 theorem reward_eq_objective_of_once (i : Inst) (as : List Nat)
     (hr : ∀ a ∈ as, a ≤ i.n) (ho : ∀ j, 1 ≤ j → j ≤ i.n → as.count j ≤ 1) (hl : as.length ≠ 1) :
     reward i as = objective i as := by
-  simp only [reward, hl, if_false, objective]
+  rw [reward_eq]
+  simp only [hl, if_false, objective]
   exact gatherSum_eq_sumTo i.n i.prize as hr ho
 
 /-- the single-column special case, when its assertion passes, agrees with the general formula -/
 theorem reward_single_column (i : Inst) (as : List Nat) (hl : as.length = 1)
     (hassert : rewardAssert as = true) : reward i as = objective i as := by
   have h0 : as = [0] := by
-    simp only [rewardAssert, hl, bne_self_eq_false, Bool.false_or, beq_iff_eq] at hassert
-    exact hassert
+    match as, hl with
+    | [a], _ =>
+      simp [rewardAssert, rewardSpecial_iff] at hassert
+      rw [hassert]
   subst h0
-  simp only [reward, List.length_singleton, if_true, objective]
+  rw [reward_eq]
+  simp only [List.length_singleton, if_true, objective]
   have : sumTo i.n (fun k => if k + 1 ∈ [0] then i.prize (k + 1) else 0) = sumTo i.n (fun _ => 0) :=
     sumTo_congr (fun k _ => by simp)
   rw [this, sumTo_zero]
